@@ -133,6 +133,14 @@ def basecase(fn_zeroth_deriv, domain=DOM_ALL, extras=0):
             if n < 0:
                 raise ValueError('n must be a nonnegative integer')
             if n:
+                # integer-typed arrays, python ints, lists and tuples are evaluated in floating
+                # point, as numpy does for n = 0 (integer squares wrap, integer powers raise)
+                x = args[-1]
+                if not isinstance(x, np.ndarray) or x.dtype.kind in 'biu':
+                    xa = np.asarray(x)
+                    if xa.dtype.kind in 'biu':
+                        xa = xa.astype(float)
+                    args = args[:-1] + (xa[()],)
                 return f(*args, out=out, n=n)
             elif out is None:
                 return fn_zeroth_deriv(*args)
